@@ -10,14 +10,14 @@ chk.extra['rule'] = ('records are logged through the real TypeAdapter/StyleAdapt
                      'specifications are parsed by the real maxwarn(); a case is non-trivial if it has >= 2 '
                      'warning types, >= 1 specification and the result differs from the plain total; '
                      'distinct = distinct protocol line')
-chk.lean(['VermouthProps.C08'], 'driver_c08')
+chk.lean(['VermouthProps.C08', 'VermouthProps.C08_Hist'], 'driver_c08')
 
 from vermouth.log_helpers import (get_logger, StyleAdapter, CountingHandler, ignore_warnings_and_count)
 import argparse
 M2 = runpy.run_path(os.path.join(REPO, 'bin', 'martinize2'), run_name='verif_m2')
 maxwarn = M2['maxwarn']
 
-TYPES = ['general', 'inconsistent-data', 'unmapped-atom', 'missing-atom', 'pdb-alternate', 'a', 'b']
+TYPES = ['general', 'inconsistent-data', 'unmapped-atom', 'missing-atom', 'pdb-alternate', 'a', 'b', '']  # '' is a legal (falsy) type
 LEVELS = [logging.DEBUG, logging.INFO, logging.WARNING, 35, logging.ERROR, logging.CRITICAL]
 
 
@@ -192,4 +192,97 @@ for i, (s, ln, im, mo) in enumerate(zip(strings, plines, pimpl, pmodel)):
         errs.append('number %r parsed as %s' % (s, im))
     chk.count('maxwarn_' + im.split()[0])
     chk.case('maxwarn-%d' % i, ln, im, mo, errs, ':' in s)
+
+# ---- histories on ONE handler: logging interleaved with queries ------------------------------------
+# (theorems hrun_eq_fresh, countsBy_fresh, history_leftover_ge_errors: every query of every history is
+# answered as a fresh handler holding the records logged so far would answer it)
+def run_history(ops):
+    """ops: ('log', level, type-or-None) | ('count', level-or-None, type-or-None) | ('leftover', spec strings).
+    Returns the real answers and the protocol line."""
+    base = logging.getLogger('vermouth.verif_c08h')
+    base.handlers[:] = []
+    base.propagate = False
+    base.setLevel(logging.DEBUG)
+    handler = CountingHandler()
+    base.addHandler(handler)
+    logger = StyleAdapter(get_logger('vermouth.verif_c08h'))
+    answers, enc_ops = [], []
+    for op in ops:
+        if op[0] == 'log':
+            _, level, typ = op
+            if typ is None:
+                logger.log(level, 'message {}', 1)
+            else:
+                logger.log(level, 'message {}', 1, type=typ)
+            answers.append(None)
+            enc_ops.append(['log', level, typ if typ is not None else 'general'])
+        elif op[0] == 'count':
+            _, level, typ = op
+            answers.append(handler.number_of_counts_by(level=level, type=typ))
+            enc_ops.append(['count', level, typ])
+        else:
+            specs = [[maxwarn(s) for s in g] for g in op[1]]
+            answers.append(ignore_warnings_and_count(handler, specs))
+            enc_ops.append(['leftover', logging.WARNING, [[[t, c] for t, c in g] for g in specs]])
+    base.handlers[:] = []
+    return answers, line('hist', enc_ops)
+
+
+def gen_history(rng):
+    ops = []
+    types = rng.sample(TYPES, rng.randint(1, 4)) + [None]
+    wl = rng.choice([[30], [30, 30, 40], [20, 30, 40, 50], LEVELS])
+    for _ in range(rng.randint(2, 5)):                      # rounds: a batch of records, then queries
+        for _ in range(rng.choice([0, 1, 1, 2, 3, 6])):
+            ops.append(('log', rng.choice(wl), rng.choice(types)))
+        for _ in range(rng.choice([1, 1, 2, 3])):
+            if rng.random() < 0.5:
+                ops.append(('leftover', gen_spec_strings(rng, False)))
+            else:
+                ops.append(('count', rng.choice([None, 10, 30, 31, 40, 50]), rng.choice([None] + types[:-1] + ['general'])))
+    return ops
+
+
+hist_corpus = [
+    # count, then only records above warning level, then count again (a remembered total would hide the error)
+    [('log', 30, 'a'), ('leftover', [['a']]), ('log', 40, 'a'), ('leftover', [['a']]), ('log', 50, 'b'), ('leftover', [['5']])],
+    [('count', 30, None), ('log', 40, 'x'), ('count', 30, None), ('count', None, 'x'), ('log', 30, 'x'), ('count', 30, 'x')],
+    [('leftover', []), ('log', 30, None), ('leftover', []), ('log', 30, 'general'), ('leftover', [['general:1']])],
+]
+rng = chk.rng('history')
+hists = list(hist_corpus) + [gen_history(rng) for _ in range(6000 if chk.thorough else 700)]
+hl, ha = [], []
+for ops in hists:
+    ans, ln = run_history(ops)
+    hl.append(ln)
+    ha.append(ans)
+hm = chk.drv.ask(hl) if chk.lean_ok else [None] * len(hl)
+for i, (ops, ln, ans, mo) in enumerate(zip(hists, hl, ha, hm)):
+    errs = []
+    recs = []          # the oracle's own record of what was logged so far
+    for k, (op, a) in enumerate(zip(ops, ans)):
+        if op[0] == 'log':
+            recs.append((op[1], op[2] if op[2] is not None else 'general'))
+        elif op[0] == 'count':
+            want = sum(1 for l, t in recs if (op[1] is None or l >= op[1]) and (op[2] is None or t == op[2]))
+            if a != want:
+                errs.append('step %d: number_of_counts_by(%r, %r) = %r but %d such records were logged so far' % (k, op[1], op[2], a, want))
+        else:
+            entries = {}
+            for l, t in recs:
+                entries[(l, t)] = entries.get((l, t), 0) + 1
+            ent = [[l, t, c] for (l, t), c in entries.items()]
+            specs = [[maxwarn(s) for s in g] for g in op[1]]
+            want = oracle(ent, specs)
+            if want is not None and a != want:
+                errs.append('step %d: leftover=%r but the stated accounting of the %d records logged so far gives %d' % (k, a, len(recs), want))
+            nerr = sum(1 for l, t in recs if l > logging.WARNING)
+            if a < nerr:
+                errs.append('step %d: errors waived: leftover %r < %d records above warning level logged so far' % (k, a, nerr))
+    nq = sum(1 for op in ops if op[0] != 'log')
+    chk.count('history_queries=%d' % min(nq, 8))
+    late_error = any(op[0] == 'log' and op[1] > logging.WARNING and any(o[0] != 'log' for o in ops[:j])
+                     for j, op in enumerate(ops))
+    chk.count('history_error_after_query' if late_error else 'history_no_late_error')
+    chk.case('history-%d' % i, ln, enc([a for a in ans]), mo, errs, nq >= 2 and late_error)
 chk.finish()
